@@ -91,8 +91,10 @@ func (c *tcpConnectionActor) onReadConn(ctx vivid.ActorContext) (fatal bool, err
 	var reader io.Reader = c.conn
 	lengthBuf := make([]byte, 4)
 	if _, err = io.ReadFull(reader, lengthBuf); err != nil {
-		// 对等连接已关闭
+		// 对等连接已关闭：必须标记连接不可用，否则发送方会继续向已失效的连接写入（首次写入会被内核接受并静默丢失）
 		if errors.Is(err, io.EOF) {
+			c.abandon()
+			ctx.Kill(ctx.Ref(), false, "peer closed")
 			return false, nil
 		}
 		// 当消息读取失败时，意味着连接已断开，终止 Actor
@@ -104,6 +106,7 @@ func (c *tcpConnectionActor) onReadConn(ctx vivid.ActorContext) (fatal bool, err
 			IsClient:      c.client,
 			Reason:        fmt.Sprintf("read failed: %v", err),
 		})
+		c.abandon()
 		ctx.Kill(ctx.Ref(), false, err.Error())
 		return true, err
 	}
@@ -112,6 +115,7 @@ func (c *tcpConnectionActor) onReadConn(ctx vivid.ActorContext) (fatal bool, err
 	msgLen := binary.BigEndian.Uint32(lengthBuf)
 	if msgLen == 0 {
 		_, _ = c.Write(lengthBuf)
+		c.abandon()
 		ctx.Kill(ctx.Ref(), false, "peer closed")
 		return false, nil
 	}
@@ -133,6 +137,7 @@ func (c *tcpConnectionActor) onReadConn(ctx vivid.ActorContext) (fatal bool, err
 			IsClient:      c.client,
 			Reason:        fmt.Sprintf("read message body failed: %v", err),
 		})
+		c.abandon()
 		ctx.Kill(ctx.Ref(), false, err.Error())
 		return true, vivid.ErrorReadMessageBufferFailed.With(err)
 	}
@@ -225,6 +230,15 @@ func (c *tcpConnectionActor) Close() error {
 	}
 	// 设置读超时
 	return c.conn.SetReadDeadline(time.Now().Add(1 * time.Second))
+}
+
+// abandon 在读取端确认连接已失效（对端关闭、读取失败或完成关闭握手）后调用：
+// 标记连接已关闭并释放底层连接，使持有该连接的发送方在下次发送时重新建立连接。
+func (c *tcpConnectionActor) abandon() {
+	c.writeCloseLock.Lock()
+	defer c.writeCloseLock.Unlock()
+	c.closed = true
+	_ = c.conn.Close()
 }
 
 // Closed 返回连接是否已关闭。
